@@ -229,6 +229,11 @@ def delegation(ctx, R):
             ub = F.one(w + '::' + fn)
             if ub is None:
                 continue
+            if F.is_new_helper(ub.npath):
+                # a binding that does not exist on the reference tree (new API): its Rust counterpart is new as well and
+                # is seen spliced into it, so "calls the like-named method" cannot be read off - recorded, not judged
+                ctx.note(R, 'new binding %s::%s (not on the reference tree): delegation not judged' % (wname, fn))
+                continue
             ctx.read(ub)
             takes_self = ub.nargs >= 1 and wname in ub.locals[1]
             if not takes_self:
